@@ -102,7 +102,8 @@ def c07_reauth_scope(seed=1, depth=3, sample=None):
             h.op(f"findinit @{k} 3={hx('aaprv')}"); h.minted += 1; f = h.op(f"find @{k} 1"); h.op(f"findfinal @{k}")
             h.op(f"{'siginit' if kind == 'sign' else 'decinit'} @{k} {mech} @{f}")
             al = alpha(k, f, kind)
-            for i in s: h.op(al[i])
+            for i in s:
+                h.op(al[i]); h.op(f"sinfo @{k}")          # the login state after every step (a refused login must not change it)
             # back to a known state: operation ended, nobody logged in
             h.op(f"sigfinal @{k} 300" if kind == "sign" else f"decfinal @{k} 300")
             h.op(f"sign @{k} 00 300" if kind == "sign" else f"dec @{k} 00 300")
